@@ -149,7 +149,9 @@ class FunctionEstimator(BaseEstimator):
         )
         self.y_is_mean = validate_bool(y_is_mean, "y_is_mean")
         self.mu = validate_float(mu, "mu")
-        self.sigma = validate_float_or_iterable_numerical(sigma, "sigma", positive=True)
+        self.sigma = validate_float_or_iterable_numerical(
+            sigma, "sigma", positive=True, allow_inf=True
+        )
         if ndim(self.sigma) > 1:
             message = (
                 f"sigma has {ndim(self.sigma)} dimensions but must be a number or "
